@@ -132,6 +132,16 @@ def run(chk):
                     p, data, mt = files[L]
                     recs.append(record(p, data, mt, h, ims, method, 2 ** 20))
                     chk.count(1, ('cond', h, L, ims, method))
+    # files dated at and before the epoch (reproducible builds, restored archives): the date 0 is a date like any other
+    for mt in (0, -86400, 1):
+        p = os.path.join(tmp, 'epoch%d.bin' % (mt + 100000))
+        data = bytes(range(9))
+        open(p, 'wb').write(data)
+        os.utime(p, (mt, mt))
+        for ims in ('older', 'equal', 'newer', 'absent'):
+            for method in ('GET', 'HEAD'):
+                recs.append(record(p, data, float(mt), rng.choice([None, 'bytes=0-3']), ims, method, 2 ** 20))
+                chk.count(1, ('epoch', mt, ims, method))
     # around the real streaming buffer
     big = {}
     for L in ([2 ** 20 - 1, 2 ** 20, 2 ** 20 + 1, 2 * 2 ** 20 + 1] + ([3 * 2 ** 20 + 123] if thorough else [])):
